@@ -406,6 +406,18 @@ func c07a(c *Ctx) {
 			continue
 		}
 		must := c.mustLits(fn, f.call.Block())
+		// what holds wherever the word is measured (the loop is running, the word is not a break)
+		// is not part of the decision; everything else is
+		base := map[string]bool{}
+		if gw := c.Fn("parser.FontConfig.getWordPixelWidth"); gw != nil {
+			for _, call := range callsToIn(fn, gw) {
+				if instrDominates(call.(ssa.Instruction), f.call) {
+					for _, l := range c.mustLits(fn, call.Block()) {
+						base[l] = true
+					}
+				}
+			}
+		}
 		over, nonEmpty := false, false
 		var others []string
 		for _, l := range must {
@@ -414,12 +426,132 @@ func c07a(c *Ctx) {
 				over = true
 			case strings.HasPrefix(l, "+(0 < (*strings.Builder).Len("+c.term(fn, lineSb)+")@"):
 				nonEmpty = true
-			case l == "-"+isBreakLit || strings.Contains(l, "builtin:len("):
+			case l == "-"+isBreakLit || base[l]:
+			case len(base) == 0 && strings.Contains(l, "builtin:len("):
 			default:
 				others = append(others, l)
 			}
 		}
 		c.Check(over && nonEmpty && len(others) == 0, "wrap/iff-overflow-and-line-not-empty", c.W.Pos(f.call.Pos()), "a line is wrapped exactly when the projected width exceeds maxWidth and the current line has content", fmt.Sprintf("the wrap is taken under %v; expected exactly (projected width > maxWidth) and (current line builder non-empty) — zero-width content must still allow a wrap, an empty line must not", must))
+	}
+	// the width arithmetic: the running width is 0 after a break, the word's own width after a
+	// wrap, and otherwise grows by the word's width plus — unless it is the first word of the line
+	// — the width of one space; the width that is compared with the maximum is that sum, plus the
+	// cursor room where it applies (C07.e), and nothing else
+	{
+		gw := c.Fn("parser.FontConfig.getWordPixelWidth")
+		gr := c.Fn("parser.FontConfig.getRunePixelWidth")
+		var cw *ssa.Phi
+		for _, in := range head.Instrs {
+			ph, ok := in.(*ssa.Phi)
+			if !ok {
+				break
+			}
+			if bt, ok := ph.Type().Underlying().(*types.Basic); !ok || bt.Kind() != types.Int {
+				continue
+			}
+			for i, e := range ph.Edges {
+				if !head.Dominates(head.Preds[i]) {
+					continue
+				}
+				var leaves []ssa.Value
+				phiLeaves(e, map[ssa.Value]bool{ph: true}, &leaves)
+				for _, lf := range leaves {
+					if call, ok := lf.(*ssa.Call); ok && gw != nil && callee(call) == gw {
+						cw = ph
+					}
+				}
+			}
+		}
+		okArith, why := false, "cannot find the running width of the current line (a loop variable that is set to the word's measured width)"
+		if cw != nil && gw != nil && gr != nil {
+			okArith, why = true, ""
+			isW := func(v ssa.Value) bool { call, ok := v.(*ssa.Call); return ok && callee(call) == gw }
+			isSpaceWidth := func(v ssa.Value) bool {
+				call, ok := v.(*ssa.Call)
+				if !ok || callee(call) != gr {
+					return false
+				}
+				k, isC := intConst(call.Call.Args[1])
+				return isC && k == 32
+			}
+			isSum := func(v ssa.Value, p1, p2 func(ssa.Value) bool) bool {
+				bo, ok := v.(*ssa.BinOp)
+				return ok && bo.Op == token.ADD && (p1(bo.X) && p2(bo.Y) || p1(bo.Y) && p2(bo.X))
+			}
+			// nextWordWidth: the word's width, plus one space unless first
+			isNW := func(v ssa.Value) bool {
+				var leaves []ssa.Value
+				phiLeaves(v, map[ssa.Value]bool{}, &leaves)
+				sawW, sawWS := false, false
+				for _, lf := range leaves {
+					switch {
+					case isW(lf):
+						sawW = true
+					case isSum(lf, isW, isSpaceWidth):
+						sawWS = true
+					default:
+						return false
+					}
+				}
+				return sawW && sawWS
+			}
+			isCW := func(v ssa.Value) bool { return v == ssa.Value(cw) }
+			isGrown := func(v ssa.Value) bool { return isSum(v, isCW, isNW) }
+			sawZero, sawWord, sawGrown := false, false, false
+			for i, e := range cw.Edges {
+				if !head.Dominates(head.Preds[i]) {
+					continue
+				}
+				var leaves []ssa.Value
+				phiLeaves(e, map[ssa.Value]bool{cw: true}, &leaves)
+				for _, lf := range leaves {
+					k, isC := intConst(lf)
+					switch {
+					case isC && k == 0:
+						sawZero = true
+					case isW(lf):
+						sawWord = true
+					case isGrown(lf):
+						sawGrown = true
+					default:
+						okArith, why = false, "the running width can become "+pretty(c.term(fn, lf))+", expected 0 (after a break), the word's width (after a wrap) or width + word (+ space unless first)"
+					}
+				}
+			}
+			if okArith && !(sawZero && sawWord && sawGrown) {
+				okArith, why = false, "the running width is not updated in all three ways (reset after a break, word's width after a wrap, grown otherwise)"
+			}
+			// what is compared with the maximum
+			nCmp := 0
+			instrs(fn, func(in ssa.Instruction) {
+				bo, ok := in.(*ssa.BinOp)
+				if !ok || (bo.Op != token.GTR && bo.Op != token.LSS && bo.Op != token.GEQ && bo.Op != token.LEQ) {
+					return
+				}
+				var other ssa.Value
+				if bo.X == ssa.Value(fn.Params[2]) {
+					other = bo.Y
+				} else if bo.Y == ssa.Value(fn.Params[2]) {
+					other = bo.X
+				} else {
+					return
+				}
+				nCmp++
+				var leaves []ssa.Value
+				phiLeaves(other, map[ssa.Value]bool{}, &leaves)
+				isCursor := func(v ssa.Value) bool { return v == ssa.Value(fn.Params[3]) }
+				for _, lf := range leaves {
+					if !isGrown(lf) && !isSum(lf, isGrown, isCursor) {
+						okArith, why = false, "the width compared with the maximum can be "+pretty(c.term(fn, lf))+", expected (width so far + word (+ space unless first)) (+ cursor room)"
+					}
+				}
+			})
+			if okArith && nCmp != 1 {
+				okArith, why = false, fmt.Sprintf("found %d comparisons with maxWidth, expected 1", nCmp)
+			}
+		}
+		c.Check(okArith, "width/arithmetic", c.W.Pos(wordPhi.Pos()), "running width: 0 after a break, the word after a wrap, else + word (+ space); compared value = that sum (+ cursor room)", why)
 	}
 	// words come from getNextWord on the remaining text, in order (pos advances by the returned offset)
 	okNext := false
@@ -665,10 +797,32 @@ func c07c(c *Ctx) {
 			if b.name == "fontId" && strings.HasSuffix(t, ".DefaultFontID") && isInstr {
 				// the config's default font is the last resort: only when the command line named none
 				okPrec := false
+				isEmptyLit := func(l string) bool {
+					return l == `+($0.defaultFontID == "")` || l == `-(0 < builtin:len($0.defaultFontID))` || l == `-($0.defaultFontID != "")`
+				}
 				for _, l := range c.mustLits(fn, in.Block()) {
-					if l == `+($0.defaultFontID == "")` || l == `-(0 < builtin:len($0.defaultFontID))` || l == `-($0.defaultFontID != "")` {
+					if isEmptyLit(l) {
 						okPrec = true
 					}
+				}
+				// ... or read first and overridden whenever the command line names a font: every way
+				// on which this value is the one that reaches FormatText has the emptiness test
+				if !okPrec {
+					all, any := true, false
+					for _, alt := range c.resultAlts(fn, args[b.idx]) {
+						if !strings.HasSuffix(alt.term, ".DefaultFontID") {
+							continue
+						}
+						any = true
+						has := false
+						for _, l := range alt.must {
+							if isEmptyLit(l) {
+								has = true
+							}
+						}
+						all = all && has
+					}
+					okPrec = any && all
 				}
 				if !okPrec {
 					bad = "the font config's default font is used without testing that no default font was given on the command line (-f takes precedence); guards: " + fmt.Sprint(prettyAll(c.mustLits(fn, in.Block())))
@@ -701,6 +855,47 @@ func c07c(c *Ctx) {
 				}
 			} else if strings.Contains(t, "ontDefaults") || (b.field != "" && strings.HasSuffix(t, "."+b.field) && !strings.Contains(t, ".Fonts[")) {
 				bad = "font-config fallback for " + b.name + " is " + pretty(t) + ", which is not a lookup under the font id passed to FormatText"
+			}
+		}
+		// order of precedence: what format() says beats the command line, which beats the font
+		// config, which beats the built-in default. (i) a value read from the parser's own
+		// fields (-l, -f) is the starting value: its read comes before every place where a
+		// parameter is parsed (read again at the end it would override what format() says);
+		// (ii) a built-in constant is the last resort: taken only after the font config's value
+		// was found not positive
+		{
+			leaves := c.deepLeaves(fn, args[b.idx], 2)
+			for _, dl := range leaves {
+				if dl.inFn == nil {
+					continue
+				}
+				if regexpMust(`^\$0\.[A-Za-z]+$`).MatchString(dl.term) {
+					for _, other := range leaves {
+						if other.inFn == nil || other.inFn == dl.inFn || strings.Contains(other.term, ".Fonts[") || strings.HasSuffix(other.term, ".DefaultFontID") {
+							continue
+						}
+						if canReach(other.inFn, dl.inFn) && bad == "" {
+							bad = "the command-line value " + pretty(dl.term) + " is read at " + c.W.Pos(dl.inFn.Pos()) + ", which is not before the parameters of format() are parsed (" + c.W.Pos(other.inFn.Pos()) + "): it could override a value written in format()"
+						}
+					}
+				}
+			}
+			if b.field != "" {
+				for _, alt := range c.resultAlts(fn, args[b.idx]) {
+					k, isNum := alt.term, regexpMust(`^-?\d+$`).MatchString(alt.term)
+					if !isNum || k == "-1" || k == "0" {
+						continue
+					}
+					guarded := false
+					for _, l := range alt.must {
+						if strings.HasPrefix(l, "-(0 < ") && strings.Contains(l, "."+b.field) {
+							guarded = true
+						}
+					}
+					if !guarded && bad == "" {
+						bad = "the built-in default " + k + " for " + b.name + " is used under " + fmt.Sprint(prettyAll(alt.must)) + ": expected only when the font config's " + b.field + " is not positive (-(0 < ..." + b.field + "))"
+					}
+				}
 			}
 		}
 		key := "binding/" + b.name
@@ -906,6 +1101,81 @@ func c07d(c *Ctx) {
 				nFlag++
 				pt := c.term(gn, ph)
 				bad := ""
+				// where each value on a back edge comes from: (value, block it flows out of)
+				type origin struct {
+					v ssa.Value
+					b *ssa.BasicBlock
+				}
+				body := loopBody(h)
+				var originsOf func(p *ssa.Phi, top bool, seen map[*ssa.Phi]bool) []origin
+				originsOf = func(p *ssa.Phi, top bool, seen map[*ssa.Phi]bool) []origin {
+					if seen[p] {
+						return nil
+					}
+					seen[p] = true
+					var out []origin
+					for i, e := range p.Edges {
+						pred := p.Block().Preds[i]
+						if top && !h.Dominates(pred) {
+							continue
+						}
+						if q, isPhi := e.(*ssa.Phi); isPhi && q != ph && body[q.Block()] && q.Block() != h {
+							out = append(out, originsOf(q, false, seen)...)
+							continue
+						}
+						out = append(out, origin{e, pred})
+					}
+					return out
+				}
+				// the flag may survive an iteration only in the iteration that ends the scan: where
+				// another flag of the scanner, on which the loop returns at its next turn, is set
+				var endsScan []*ssa.BasicBlock
+				for _, in2 := range h.Instrs {
+					q, isPhi := in2.(*ssa.Phi)
+					if !isPhi || q == ph {
+						continue
+					}
+					if bt, ok := q.Type().Underlying().(*types.Basic); !ok || bt.Kind() != types.Bool {
+						continue
+					}
+					// q makes the loop return when set: an If on q inside the body whose true branch returns
+					returns := false
+					if q.Referrers() != nil {
+						for _, r := range *q.Referrers() {
+							if ifi, isIf := r.(*ssa.If); isIf {
+								tb := ifi.Block().Succs[0]
+								if len(tb.Instrs) > 0 {
+									if _, isRet := tb.Instrs[len(tb.Instrs)-1].(*ssa.Return); isRet {
+										returns = true
+									}
+								}
+							}
+						}
+					}
+					if !returns {
+						continue
+					}
+					for _, o := range originsOf(q, true, map[*ssa.Phi]bool{}) {
+						if k, ok := o.v.(*ssa.Const); ok && k.Value != nil && k.Value.String() == "true" {
+							endsScan = append(endsScan, o.b)
+						}
+					}
+				}
+				pcg := c.PC(gn)
+				for _, o := range originsOf(ph, true, map[*ssa.Phi]bool{}) {
+					if o.v != ssa.Value(ph) {
+						continue
+					}
+					okKeep := false
+					for _, eb := range endsScan {
+						if dnfImplies(pcg.canonOf(pcg.At(o.b)), pcg.canonOf(pcg.At(eb))) {
+							okKeep = true
+						}
+					}
+					if !okKeep {
+						bad = "the escape flag survives an iteration (through " + c.nearPos(o.b.Instrs[len(o.b.Instrs)-1]) + ") that does not end the scan: an earlier backslash would still escape a later letter, and the rest of the text could be lost"
+					}
+				}
 				for _, l := range leaves {
 					switch x := l.v.(type) {
 					case *ssa.Const:
@@ -1065,6 +1335,22 @@ func c07e(c *Ctx) {
 			last := "-(" + lineNum + "+1 < $5)"
 			para := "+(*parser.FontConfig).isParagraphBreak($0," + nextWord + ")"
 			want := mkDNF([]string{has, last}, []string{has, para})
+			// ... and nothing else: relative to where the word's width is measured (the same arm of
+			// the loop), the addition happens under exactly that condition — no further conjunct
+			// over other variables (numLines > 1, a width threshold)
+			if gw := c.Fn("parser.FontConfig.getWordPixelWidth"); gw != nil {
+				for _, call := range callsToIn(fn, gw) {
+					if !instrDominates(call.(ssa.Instruction), bo) {
+						continue
+					}
+					base := c.PC(fn).canonOf(c.PC(fn).At(call.Block()))
+					if !dnfEquiv(d, dnfAnd(base, want)) {
+						c.Bad("cursor-room/no-further-condition", pos, "the cursor overlap is added under ["+pretty(d.String())+"], which is not (the word is measured) && (next word exists) && (last line of the box || next word is \\p): a further condition decides whether room for the prompt is reserved")
+					} else {
+						c.OK("cursor-room/no-further-condition", pos, "no further condition on the cursor room")
+					}
+				}
+			}
 			c.Check(dnfEquiv(rel, want), "cursor-room/condition", pos, "cursor room is reserved exactly when a next word exists and (the line is the last of the box or the next word is a paragraph break)", "the cursor overlap is added under ["+pretty(rel.String())+"], expected exactly (next word exists) && (last line of the box || next word is \\p): a line that shows the prompt could exceed the width, or a word could wrap although it fits")
 		})
 		c.Check(n == 1, "cursor-room/site", c.W.FuncPos(fn), "one place adds the cursor overlap to the projected width", fmt.Sprintf("found %d additions of cursorOverlapWidth, expected 1", n))
